@@ -240,6 +240,10 @@ def families(canary_path):
         '<!DOCTYPE svg [<!ENTITY a "aaaaaaaaaa"><!ENTITY b "&a;&a;&a;&a;&a;&a;&a;&a;"><!ENTITY c "&b;&b;&b;&b;&b;&b;&b;&b;"><!ENTITY d "&c;&c;&c;&c;&c;&c;&c;&c;"><!ENTITY x "&d;&d;&d;&d;&d;&d;&d;&d;">]>',
         '<!DOCTYPE svg SYSTEM "file://%s">' % canary_path,
     ]
+    # an internal entity referenced in an attribute that is passed through verbatim (gradient stops)
+    out.append(("entity", '<!DOCTYPE svg [<!ENTITY c "red">]><svg %s viewBox="0 0 9 9"><linearGradient id="g">'
+                '<stop offset="0" stop-color="&c;"/><stop offset="1" stop-color="blue"/></linearGradient>'
+                '<rect fill="url(#g)" width="4" height="4"/></svg>' % NS))
     for e in ents:
         for use in ('<title>&x;</title><rect width="2" height="2"/>', '<rect id="&x;" width="2" height="2"/>',
                     '<text>&x;</text>', '<g>&x;</g><rect width="2" height="2"/>'):
@@ -316,6 +320,9 @@ def run(out, tier):
                 if v.startswith("BAD:process-crash") and j[0] == "entity" and \
                         __import__("re").search(r'="[^"]*&\w+;', j[2].split("]>", 1)[-1]):
                     key += "/entity-reference-in-attribute"
+                if v.startswith("BAD") and "process-crash" not in v and j[0] == "entity" and \
+                        __import__("re").search(r'<stop[^>]*="&\w+;"', j[2]):
+                    key += "/entity-reference-in-passed-through-attribute"
                 out.violation(key, "TLC rejected trace: " + v,
                               {"kind": j[0], "svg": j[2], "end": r_["end"], "rounds": r_["rounds"], "verdict": v})
     finally:
